@@ -171,7 +171,7 @@ class C12(Check):
         '"earlier selected cap" needs no tie-break',
         'formats are compared through the reference on decided points, not bit-for-bit inside the band',
     ]
-    REQUIRED_COUNTERS = ('centre_asserted', 'centre_tiny_cm_asserted', 'antipode_asserted', 'near_boundary_decided',
+    REQUIRED_COUNTERS = ('radec_integer_dtype_cases', 'centre_asserted', 'centre_tiny_cm_asserted', 'antipode_asserted', 'near_boundary_decided',
                          'negative_caps_evaluated', 'masked_caps_skipped', 'ncaps_restricting', 'radec_cases',
                          'f32_cases', 'window_point_in_several', 'window_point_in_none', 'empty_polygon_all_inside',
                          'arm_mem', 'arm_ply', 'arm_fits_raw', 'arm_fits_conv', 'arm_balkans', 'fits_plain3d_raw',
@@ -575,6 +575,19 @@ class C12(Check):
             if not used and good:
                 out.count('empty_polygon_all_inside')
                 out.expect(bool(np.asarray(got).all()), 'empty', 'a polygon without (used) caps contains every point')
+        # --- RA/Dec given in an integer dtype (whole-degree positions, as catalogues and grids deliver them) must be
+        #     answered exactly like the same positions given as floats (which the clauses above tie to the definition)
+        if case['coords'] == 'radec' and pts.shape[1] == 2:
+            ip = np.round(pts)
+            ip[:, 1] = np.clip(ip[:, 1], -90, 90)
+            dt = ('int64', 'int32', 'int16')[len(case['pts']) % 3]
+            ok_f, got_f = self._call(out, 'is_in_polygon', M.is_in_polygon, poly, ip.astype('f8'), ncaps=ncp)
+            ok_i, got_i = self._call(out, 'is_in_polygon', M.is_in_polygon, poly, ip.astype(dt), ncaps=ncp)
+            if ok_f and ok_i:
+                out.expect(bool(np.array_equal(np.asarray(got_f), np.asarray(got_i))), 'radec-integer',
+                           'RA/Dec given as %s answered differently from the same positions given as float64 (%d of %d points)'
+                           % (dt, int((np.asarray(got_f) != np.asarray(got_i)).sum()), len(ip)))
+                out.count('radec_integer_dtype_cases')
         nb = self._note_points(out, used, st, near)
         out.nontrivial = len(used) >= 2 and neg >= 1 and nb >= 1
         out.info.update(n_caps=n, used=used, inside=int((st == IN).sum()), outside=int((st == OUT).sum()),
